@@ -304,6 +304,25 @@ def find_assign(body, name):
     return found[0]
 
 
+def resolve_const(module, node, depth=3):
+    """ a bare Name used where a literal is expected -> the value node of its
+    single module-level assignment (a literal turned into a named module
+    constant is the same value); fail closed when the name is assigned more
+    than once at module level or not at all. """
+    while isinstance(node, ast.Name) and depth > 0:
+        hits = [st for st in module.body
+                if isinstance(st, (ast.Assign, ast.AnnAssign))
+                and any(isinstance(t, ast.Name) and t.id == node.id
+                        for t in (st.targets if isinstance(st, ast.Assign)
+                                  else [st.target]))]
+        if len(hits) != 1 or hits[0].value is None:
+            raise Untranslatable(f"{node.id}: not a single module-level "
+                                 "constant")
+        node = hits[0].value
+        depth -= 1
+    return node
+
+
 def default_of(func, argname):
     """ default value node of a keyword/positional argument; fail closed. """
     a = func.args
